@@ -43,9 +43,8 @@ def _diff_case(case: dict):
     if "bad-op" in out:
         raise RuntimeError(f"driver rejected a line of {lines}")
     model = _answers(lines, out)
-    i = next((j for j, (a, b) in enumerate(zip(impl, model)) if a != b), -1)
-    if i < 0 and len(impl) != len(model):
-        i = min(len(impl), len(model))
+    cmp_case = dict(case, **capture["observed"]) if case["family"] == "env" else case
+    i = rig.first_diff(cmp_case, impl, model, capture)
     return i < 0, impl, model, i, lines, capture
 
 
@@ -101,6 +100,81 @@ def _shrink(case: dict) -> dict:
             continue
         if fails(cand):
             cur = cand
+    return cur
+
+
+def _multishare_case(rng: Rng, decimal: bool) -> dict:
+    """3..5 agents; one `hub` shares from 2..3 others (sometimes twice from the same one); the rest of the graph random and
+    forward-only under a random labelling. Variants: acyclic / a back arc from one of the hub's dependencies (chosen at random
+    among first, middle, last listed) to the hub or to an agent the hub is reached from."""
+    n = rng.range(3, 5)
+    lab = rng.shuffle(list(range(n)))          # lab[0] is the hub; arcs go from lower to higher position => acyclic
+    k = rng.range(2, min(3, n - 1))
+    deps = rng.shuffle(lab[1:])[:k]
+    arcs = [(lab[0], d) for d in deps]
+    if rng.chance(1, 4):
+        arcs.append((lab[0], rng.choice(deps)))  # a second shared-reward component naming the same agent
+    arcs += [(lab[i], lab[j]) for i in range(1, n) for j in range(i + 1, n) if rng.chance(1, 3)]
+    if rng.chance(1, 3):                       # close a cycle through one of the hub's shares
+        arcs.append((rng.choice(deps), lab[0]))
+    arcs = rng.shuffle(arcs)
+    return rig.gen_game_case(rng, n, arcs, rng.shuffle(list(range(n))), n_steps=rng.range(2, 5), rich=rng.chance(1, 4),
+                             decimal=decimal)
+
+
+def _share_coverage(ctx: Ctx, case: dict):
+    """How the case exercises agents with several shares: out-degree, repeated names, and whether the verdict / the order
+    depends on a share that is not the agent's last (or not its first) one."""
+    g = rig.declared_graph(case["agents"])
+    deg = max((len(set(v)) for v in g.values()), default=0)
+    ctx.count("shares-per-agent-max:%d" % min(deg, 4))
+    if any(len(set(v)) != len(v) for v in g.values()):
+        ctx.count("shares:same-agent-named-twice")
+    if deg >= 2:
+        cyc = rig.has_cycle_ref(g)
+        for tag, sub in (("last", {u: v[-1:] for u, v in g.items()}), ("first", {u: v[:1] for u, v in g.items()})):
+            if cyc and not rig.has_cycle_ref(sub):
+                ctx.count(f"shares:cycle-invisible-if-only-{tag}-share-kept")
+        if not cyc:
+            ctx.count("shares:acyclic-with-multi-share-agent")
+
+
+def _shrink_oracle(case: dict) -> dict:
+    """Smallest variant on which the Python oracle still fails (same first word of its message)."""
+    def says(c) -> Optional[str]:
+        try:
+            impl, cap = rig.run_impl(c)
+            return rig.oracle(c, impl, cap)
+        except Exception:
+            return None
+    base = says(case)
+    if base is None:
+        return case
+    key = base.split(":")[0]
+    cur = case
+
+    def fails(c) -> bool:
+        m = says(c)
+        return m is not None and m.split(":")[0] == key
+    if len(cur["steps"]) >= 2:
+        steps = shrink_ops(cur["steps"], lambda ops: fails(dict(cur, steps=ops)), budget=40)
+        if fails(dict(cur, steps=steps)):
+            cur = dict(cur, steps=steps)
+    budget = 60
+    changed = True
+    while changed and budget > 0:
+        changed = False
+        for ai, a in enumerate(cur["agents"]):
+            for ci in range(len(a["comps"])):
+                budget -= 1
+                agents = [dict(x, comps=[c for j, c in enumerate(x["comps"]) if not (k == ai and j == ci)])
+                          for k, x in enumerate(cur["agents"])]
+                cand = dict(cur, agents=agents)
+                if fails(cand):
+                    cur, changed = cand, True
+                    break
+            if changed:
+                break
     return cur
 
 
@@ -162,9 +236,36 @@ def _families(ctx: Ctx) -> List[Tuple[str, dict]]:
             for s in c["steps"]:
                 s["items"] = {a["ref"]: rig.gen_item(rng) for a in c["agents"]}
         cases.append(("malformed", c))
+    # agents with TWO OR MORE shared-reward components (also two components naming the same agent), the shares shuffled among
+    # the agent's other components; acyclic, or cyclic through a share chosen at random among the hub's shares; several steps with
+    # changing rewards, so that a dependency evaluated too late shows as a stale value
+    for k in range(ctx.scale(400, 8000)):
+        cases.append(("multishare", _multishare_case(rng, decimal=False)))
+    # decimal literals (0.4, 0.05, 0.33 ...), code lists of any length: the model computes on the exact values of the doubles,
+    # the implementation's floats must lie within the accumulated rounding bound
+    for k in range(ctx.scale(250, 5000)):
+        if rng.chance(1, 3):
+            cases.append(("decimal", _multishare_case(rng, decimal=True)))
+        else:
+            n = rng.range(1, 4)
+            lab = rng.shuffle(list(range(n)))
+            arcs = [(lab[u], lab[v]) for u in range(n) for v in range(n) if u < v and rng.chance(1, 2)]
+            cases.append(("decimal", rig.gen_game_case(rng, n, arcs, rng.shuffle(list(range(n))),
+                                                       n_steps=rng.range(3, ctx.scale(12, 30)), rich=True, decimal=True)))
     # the real pipeline: PrimaiteGymEnv.step on UC2 with dyadic weights, random sticky flags and declaration order
-    for k in range(ctx.scale(3, 40)):
+    for k in range(ctx.scale(2, 30)):
         cases.append(("env", rig.gen_env_case(rng, ctx.scale(40, 128))))
+    # ... on UC2 with the shipped weights (0.4 / 0.05 / 0.25 ...), on the other shipped scenarios (own weights, and dyadic ones),
+    # and on generated scenarios (harness/gen/scenario.py: switched LAN, routed, firewall+DMZ)
+    cases.append(("env-asis", rig.gen_env_case(rng, ctx.scale(40, 128), "uc2", "asis")))
+    shipped = list(rig.ENV_SHIPPED)
+    for stem in (shipped if ctx.thorough else shipped[:3] + rng.shuffle(shipped[3:])[:4]):
+        for mode in (("asis", "dyadic") if ctx.thorough or stem.startswith("uc7") else (rng.choice(["asis", "dyadic"]),)):
+            cases.append(("env-shipped", rig.gen_env_case(rng, ctx.scale(24, 96), "shipped:" + stem, mode)))
+    from harness.gen.scenario import FAMILIES as GEN_FAMILIES
+    for k in range(ctx.scale(4, 40)):
+        cases.append(("env-gen", rig.gen_env_case(rng, ctx.scale(24, 64), f"gen:{rng.choice(list(GEN_FAMILIES))}:{rng.range(1, 3)}",
+                                                  rng.choice(["asis", "dyadic"]))))
     # the two science.py functions on raw graphs (lists with repeats, dangling names)
     for k in range(ctx.scale(600, 20000)):
         cases.append(("rawgraph", rig.gen_raw_graph(rng)))
@@ -205,6 +306,8 @@ def run(ctx: Ctx):
         if case["family"] == "env":
             case = dict(case, **capture["observed"])  # what the real run produced: agents, per-step states and items
         if case["family"] in ("game", "env"):
+            _share_coverage(ctx, case)
+            ctx.count("compare:" + ("exact" if case.get("exact", True) else "within-rounding-bound"))
             kinds = {rig_kind for a in case["agents"] for rig_kind in (_comp_tag(c) for c in a["comps"])}
             for kd in kinds:
                 ctx.count("comp:" + kd)
@@ -220,9 +323,10 @@ def run(ctx: Ctx):
         orc = capture["oracle"]
         if orc is not None and reported < 5:
             reported += 1
+            ocase = _shrink_oracle(case) if case["family"] == "game" else case
             ctx.violation({"kind": "oracle", "what": orc.split(":")[0][:40]}, "C10 oracle fails on the implementation: " + orc,
-                          {"family": "oracle", "case": case, "impl": impl})
-        if impl == model:
+                          {"family": "oracle", "case": ocase, "impl": impl, "oracle_says": orc, "from": name})
+        if rig.first_diff(case, impl, model, capture) < 0:
             agree += 1
             if fam in ("rich", "exh4", "big", "env"):
                 ctx.sample({"case": name, "lines": lines[:10], "answers": model[:3]}, cap=4)
